@@ -51,7 +51,9 @@ namespace details {
             }
             else
             {
-                return read_16bit_uuid( bytes_ ) == attr.uuid;
+                // internal_128bit_uuid is not a type, it marks attributes that have a 128 bit type
+                return attr.uuid != bits( gatt_uuids::internal_128bit_uuid )
+                    && read_16bit_uuid( bytes_ ) == attr.uuid;
             }
         }
 
